@@ -783,13 +783,20 @@ func (s *session) closeLocked() error {
 }
 
 func (s *session) readDisconnected(oldConn net.Conn, err error) {
-	status := s.getStatus()
-	switch status {
-	case statusPassiveClosed, statusActiveClosed, statusPassiveClosing:
-		return
-	case statusActiveClosing:
-	default:
-		s.changeStatus(statusPassiveClosing)
+	var status int32
+	for {
+		status = s.getStatus()
+		switch status {
+		case statusPassiveClosed, statusActiveClosed, statusPassiveClosing:
+			return
+		case statusActiveClosing:
+		default:
+			// a concurrent local Close may change the status between the load and this update
+			if !s.tryChangeStatus(statusPassiveClosing, status) {
+				continue
+			}
+		}
+		break
 	}
 
 	s.peer.sessHub.deleteSession(s)
